@@ -270,6 +270,14 @@ func (f *RunningEventFilter) onReorg(writer db.KeyValueWriter) error {
 		if err != nil {
 			return err
 		}
+		// The re-entered window is the running one again: its persisted copy goes stale with the
+		// first replaced block and would make a restart place the running window one too far.
+		if err := DeleteAggregatedBloomFilter(writer, rangeStartAligned, rangeEndAligned); err != nil {
+			return fmt.Errorf(
+				"deleting persisted filter for window [%d,%d]: %w",
+				rangeStartAligned, rangeEndAligned, err,
+			)
+		}
 		f.inner = &lastStoredFilter
 	}
 
